@@ -9,13 +9,15 @@ def run(ctx: Ctx) -> None:
     agg = sweep(ctx, {"C06"})
     from mc import computed_sweep
     comp = computed_sweep.sweep(ctx, {"C06"})
+    from mc.parser_sweep import sweep_first_tree
+    first = sweep_first_tree(ctx)
     ctx.coverage.update(
-        computed_repetition_sweep=comp,
+        computed_repetition_sweep=comp, first_tree_requests_on_cyclic_grammars=first,
         states=agg["words"] + comp["words"], transitions=2 * (agg["words"] + comp["words"]), traces_validated_against_impl=2 * (agg["words"] + comp["words"]),
         samples=agg["samples"], exhaustive=agg["skipped_words"] == 0 and comp["skipped_words"] == 0,
         grammars=agg["grammars"], words=agg["words"], budget=ADMISSION_BUDGET,
         max_admissions_of_a_terminating_request=agg["max_adm"], budget_hits=agg["budget_hits"],
         skipped_words_after_budget_hits=agg["skipped_words"], spec_errors=agg["spec_errors"],
         rule="each (grammar, word) is parsed as whole forest (COMPLETE) and in prefix mode (INCOMPLETE); a request "
-             "that needs more than the admission budget or 20 s is reported; first-tree requests do a prefix of the forest's work",
+             "that needs more than the admission budget or 20 s is reported; first-tree requests do a prefix of the forest's work and are made separately on the grammars with a derivation cycle, where the forest request is a recorded non-terminating case",
     )
